@@ -786,7 +786,7 @@ def _r6(w: World, rep: Report):
             if ok:
                 for t, succ, lab in tests:
                     for s2, l2 in t.succ:
-                        if l2 is not lab and s2.kind == 'raise' and s2.exc != 'ScriptExecutionError':
+                        if l2 is not lab and cfg.raise_class_of(s2) != 'ScriptExecutionError':
                             ok = False
             rep.check('C09.R6', f'functions.{fname}|eval-of-stack-data|disallow-guard', ok, line=s.line,
                       file=REL, why='' if ok else 'a stack-supplied script is run without the disallow_OP_EVAL guard')
